@@ -363,6 +363,19 @@ pub fn check_case(case: &Case) -> Outcome {
             ),
         );
     }
+    if out.end == End::Exited(1)
+        && k < calls
+        && let Some(title) = proc::first_error_title(&actual[pos..])
+    {
+        return fail(
+            case,
+            format!("runtime-error|{title}|{crash_class}"),
+            format!(
+                "naija reported `{title}` and exited with status 1 after {k} correct answer(s) of {calls} ({how}); {}",
+                describe_input()
+            ),
+        );
+    }
     if k < calls {
         let got = parse_record(actual, pos);
         let class = mismatch_class(&text, &want, k, got);
